@@ -906,7 +906,7 @@ def run(ctx: core.Ctx):
         what = (verdict(small, rr) if "rows" in rr else f"real code raised {rr['__error__']}: {rr['text'][:300]}") or w
         ctx.violation("real output violates C02: " + classify(what) + (" [tf_adjustment_weight 0 supplied]" if mi.get("tf_weight_zero_present") else "") + f" [{mi.get('construct', mi.get('engine'))}]",
                       {"case": small, "observed": rr, "detail": what}, kind="concrete", match_info=match_info(small, what))
-    if not concrete:
+    if not ctx.violations:  # no NEW concrete violation (none at all, or only ones a registered known finding describes)
         if broken:
             c, w = broken[0]
             ctx.violation("correspondence Score model <-> predict() no longer checks",
